@@ -187,7 +187,7 @@ func (fr *Frame) loopEffects(pre *State, li *loopInfo) *loopEffects {
 			return
 		}
 		if ok && len(val.S) > 0 {
-			eff.targets = append(eff.targets, modTarget{kind: "obj", ref: val.S[0]})
+			eff.targets = append(eff.targets, modTarget{kind: "obj", ref: val.S[0], kinds: vc.p.lay.of(t).Kinds})
 			markKinds(t, true)
 			return
 		}
@@ -294,7 +294,7 @@ func (fr *Frame) loopCallEffects(pre *State, li *loopInfo, eff *loopEffects, c *
 			case ok && fresh:
 				markKinds(st.Elem(), true)
 			case ok:
-				eff.targets = append(eff.targets, modTarget{kind: "obj", ref: val.S[0]})
+				eff.targets = append(eff.targets, modTarget{kind: "obj", ref: val.S[0], kinds: vc.p.lay.of(st.Elem()).Kinds})
 				markKinds(st.Elem(), true)
 			default:
 				markKinds(st.Elem(), false)
